@@ -35,6 +35,8 @@ def check(chk, fx):
     pos_p(chk, fx)
     pos_v(chk, fx)
     pos_s(chk, fx)
+    from .. import primrules
+    primrules.prims(chk, fx, "TVAL")
     from .. import width
     width.check(chk, fx, classes=("LINECOL", "LEN"), minimum=10)
     from .. import deporder
